@@ -7,7 +7,7 @@
    (Cuboid = mesh = tetrahedra, Cylinder = sum of segments, Polyline -> Circle). *)
 From Coq Require Import ZArith Reals List Bool.
 From MV Require Import Lib.Rigid Lib.OctZ Gen.GenCuboid Gen.GenCylMask Model.ReprModel Model.ReprExec Proofs.ReprProofs Proofs.ReprExecProofs
-  Proofs.ReprCuboid Proofs.ReprUnique.
+  Proofs.ReprCuboid Proofs.ReprUnique Proofs.ReprFlip.
 Import ListNotations.
 
 (* ---- Sphere (outside) = Dipole with moment M*V = (J/mu0) * pi d^3/6 : all four fields, every observer with
@@ -128,39 +128,116 @@ Theorem C13_to_TriangleCollection :
 Proof. exact (@to_collection_spec). Qed.
 Print Assumptions C13_to_TriangleCollection.
 
-(* ---- stretch, PARTIAL: Cuboid = sum of its parts under an axis-aligned cut.
-   cuboid_ff and cuboid_contrib are TRANSLATED from magnet_cuboid_Bfield on this run (Gen/GenCuboid.v): the six
-   closed-form terms (three arctan2 sums, three log terms) and the table that assembles B from them.
-   box_B_noflip is component j of the B-field the function assembles for the Cuboid [x0,x1]x[y0,y1]x[z0,z1] seen
-   from p when NO octant flip happens (all qsigns = 1).  Proved: for EVERY function in the place of arctan2, every
-   polarization, every box, every cut position and every observer off the planes of the faces and of the cut, the
-   whole equals the sum of the two parts (cuts along x, y and z).
-   What is missing for the full statement: the octant flip (the implementation first mirrors the observer into
-   the octant x>=0, y<=0, z<=0 of EACH box separately; the theorem covers the observers for which the whole and
-   both parts need no flip, i.e. p beyond all three centres), H/J/M, and rotated poses. *)
-Theorem C13_cuboid_cut_x_partial :
-  forall (at2 : R -> R -> R) (pol : R * R * R) (j : nat) (px py pz x0 xm x1 y0 y1 z0 z1 : R),
+(* ---- stretch: Cuboid = sum of its parts under an axis-aligned cut (cuboid_axis_partition), B, H, J and M.
+   TRANSLATED from magnet_cuboid_Bfield on this run (Gen/GenCuboid.v): cuboid_ff (the six closed-form terms: three
+   arctan2 sums, three log terms), cuboid_contrib (the table that assembles B from them) and qs_flipx/y/z (the sign
+   tables of the octant flip).  box_B_code is component j of the B-field the function computes for the Cuboid
+   [x0,x1]x[y0,y1]x[z0,z1] seen from p, INCLUDING the flip (observer mirrored into the octant x>=0, y<=0, z<=0 of the
+   box, contributions multiplied by the product of the sign tables of the mirrors applied).
+   Proved for every function at2 in the place of arctan2 that is odd in its first argument and satisfies
+   at2 y (-x) = cc y - at2 y x for y <> 0 (numpy's arctan2 does: C13_numpy_arctan2_hypotheses), every polarization,
+   every box, every cut position and EVERY observer off the planes of the faces and of the cut:
+   the flipped evaluation equals the direct one (each term is even or odd under each mirror with exactly the sign of
+   the translated tables), and whole = part 1 + part 2 for cuts along x, y and z.
+   J, M, H follow BHJM_magnet_cuboid on a general row: J = polarization where (|x|-a < RTOL a) & ..., M = J/mu0,
+   H = (B - J[inside])/mu0, for every RTOL >= 0 and observers farther than RTOL * half-size from the planes.
+   Still outside: rotated poses (the boxes share one frame), the special rows (null polarization or dimension,
+   observer on an edge), binary64 rounding. *)
+Section CuboidPartition.
+Variable at2 : R -> R -> R.
+Variable cc : R -> R.
+Hypothesis at2_odd : forall y x, y <> 0%R -> at2 (- y)%R x = (- at2 y x)%R.
+Hypothesis at2_refl : forall y x, y <> 0%R -> at2 y (- x)%R = (cc y - at2 y x)%R.
+
+Theorem C13_cuboid_flip_is_identity :
+  forall (pol : R * R * R) (j : nat) (x y z a b c : R), off_planes x y z a b c ->
+    cuboid_B_code at2 pol j x y z a b c = combine_terms cuboid_contrib pol j (fun i => term at2 i x y z a b c).
+Proof. exact (cuboid_flip_is_identity at2 cc at2_odd at2_refl). Qed.
+
+Theorem C13_cuboid_axis_partition_B_x :
+  forall (pol : R * R * R) (j : nat) (px py pz x0 xm x1 y0 y1 z0 z1 : R),
     px <> x0 -> px <> xm -> px <> x1 -> py <> y0 -> py <> y1 -> pz <> z0 -> pz <> z1 ->
-    box_B_noflip at2 pol j px py pz x0 x1 y0 y1 z0 z1 =
-    (box_B_noflip at2 pol j px py pz x0 xm y0 y1 z0 z1 + box_B_noflip at2 pol j px py pz xm x1 y0 y1 z0 z1)%R.
-Proof. exact box_B_noflip_cut_x. Qed.
-Print Assumptions C13_cuboid_cut_x_partial.
-
-Theorem C13_cuboid_cut_y_partial :
-  forall (at2 : R -> R -> R) (pol : R * R * R) (j : nat) (px py pz x0 x1 y0 ym y1 z0 z1 : R),
+    box_B_code at2 pol j px py pz x0 x1 y0 y1 z0 z1 =
+    (box_B_code at2 pol j px py pz x0 xm y0 y1 z0 z1 + box_B_code at2 pol j px py pz xm x1 y0 y1 z0 z1)%R.
+Proof. exact (box_B_code_cut_x at2 cc at2_odd at2_refl). Qed.
+Theorem C13_cuboid_axis_partition_B_y :
+  forall (pol : R * R * R) (j : nat) (px py pz x0 x1 y0 ym y1 z0 z1 : R),
     px <> x0 -> px <> x1 -> py <> y0 -> py <> ym -> py <> y1 -> pz <> z0 -> pz <> z1 ->
-    box_B_noflip at2 pol j px py pz x0 x1 y0 y1 z0 z1 =
-    (box_B_noflip at2 pol j px py pz x0 x1 y0 ym z0 z1 + box_B_noflip at2 pol j px py pz x0 x1 ym y1 z0 z1)%R.
-Proof. exact box_B_noflip_cut_y. Qed.
-Print Assumptions C13_cuboid_cut_y_partial.
-
-Theorem C13_cuboid_cut_z_partial :
-  forall (at2 : R -> R -> R) (pol : R * R * R) (j : nat) (px py pz x0 x1 y0 y1 z0 zm z1 : R),
+    box_B_code at2 pol j px py pz x0 x1 y0 y1 z0 z1 =
+    (box_B_code at2 pol j px py pz x0 x1 y0 ym z0 z1 + box_B_code at2 pol j px py pz x0 x1 ym y1 z0 z1)%R.
+Proof. exact (box_B_code_cut_y at2 cc at2_odd at2_refl). Qed.
+Theorem C13_cuboid_axis_partition_B_z :
+  forall (pol : R * R * R) (j : nat) (px py pz x0 x1 y0 y1 z0 zm z1 : R),
     px <> x0 -> px <> x1 -> py <> y0 -> py <> y1 -> pz <> z0 -> pz <> zm -> pz <> z1 ->
-    box_B_noflip at2 pol j px py pz x0 x1 y0 y1 z0 z1 =
-    (box_B_noflip at2 pol j px py pz x0 x1 y0 y1 z0 zm + box_B_noflip at2 pol j px py pz x0 x1 y0 y1 zm z1)%R.
-Proof. exact box_B_noflip_cut_z. Qed.
-Print Assumptions C13_cuboid_cut_z_partial.
+    box_B_code at2 pol j px py pz x0 x1 y0 y1 z0 z1 =
+    (box_B_code at2 pol j px py pz x0 x1 y0 y1 z0 zm + box_B_code at2 pol j px py pz x0 x1 y0 y1 zm z1)%R.
+Proof. exact (box_B_code_cut_z at2 cc at2_odd at2_refl). Qed.
+
+Theorem C13_cuboid_axis_partition_H_x :
+  forall (mu0 eps : R) (pol : R * R * R) (j : nat) (px py pz x0 xm x1 y0 y1 z0 z1 : R),
+    mu0 <> 0%R -> (0 <= eps)%R -> (x0 < xm < x1)%R ->
+    clear_of eps (x1 - x0) px x0 -> clear_of eps (x1 - x0) px xm -> clear_of eps (x1 - x0) px x1 ->
+    py <> y0 -> py <> y1 -> pz <> z0 -> pz <> z1 ->
+    box_H at2 mu0 eps pol j px py pz x0 x1 y0 y1 z0 z1 =
+    (box_H at2 mu0 eps pol j px py pz x0 xm y0 y1 z0 z1 + box_H at2 mu0 eps pol j px py pz xm x1 y0 y1 z0 z1)%R.
+Proof. exact (box_H_cut_x at2 cc at2_odd at2_refl). Qed.
+Theorem C13_cuboid_axis_partition_H_y :
+  forall (mu0 eps : R) (pol : R * R * R) (j : nat) (px py pz x0 x1 y0 ym y1 z0 z1 : R),
+    mu0 <> 0%R -> (0 <= eps)%R -> (y0 < ym < y1)%R ->
+    clear_of eps (y1 - y0) py y0 -> clear_of eps (y1 - y0) py ym -> clear_of eps (y1 - y0) py y1 ->
+    px <> x0 -> px <> x1 -> pz <> z0 -> pz <> z1 ->
+    box_H at2 mu0 eps pol j px py pz x0 x1 y0 y1 z0 z1 =
+    (box_H at2 mu0 eps pol j px py pz x0 x1 y0 ym z0 z1 + box_H at2 mu0 eps pol j px py pz x0 x1 ym y1 z0 z1)%R.
+Proof. exact (box_H_cut_y at2 cc at2_odd at2_refl). Qed.
+Theorem C13_cuboid_axis_partition_H_z :
+  forall (mu0 eps : R) (pol : R * R * R) (j : nat) (px py pz x0 x1 y0 y1 z0 zm z1 : R),
+    mu0 <> 0%R -> (0 <= eps)%R -> (z0 < zm < z1)%R ->
+    clear_of eps (z1 - z0) pz z0 -> clear_of eps (z1 - z0) pz zm -> clear_of eps (z1 - z0) pz z1 ->
+    px <> x0 -> px <> x1 -> py <> y0 -> py <> y1 ->
+    box_H at2 mu0 eps pol j px py pz x0 x1 y0 y1 z0 z1 =
+    (box_H at2 mu0 eps pol j px py pz x0 x1 y0 y1 z0 zm + box_H at2 mu0 eps pol j px py pz x0 x1 y0 y1 zm z1)%R.
+Proof. exact (box_H_cut_z at2 cc at2_odd at2_refl). Qed.
+End CuboidPartition.
+Print Assumptions C13_cuboid_flip_is_identity.
+Print Assumptions C13_cuboid_axis_partition_B_x.
+Print Assumptions C13_cuboid_axis_partition_B_y.
+Print Assumptions C13_cuboid_axis_partition_B_z.
+Print Assumptions C13_cuboid_axis_partition_H_x.
+Print Assumptions C13_cuboid_axis_partition_H_y.
+Print Assumptions C13_cuboid_axis_partition_H_z.
+
+(* J (and M = J / mu0 by definition of box_M): the inside masks of the parts add up to the mask of the whole *)
+Theorem C13_cuboid_axis_partition_J :
+  forall (eps : R) (pol : R * R * R) (j : nat) (px py pz : R), (0 <= eps)%R ->
+  (forall x0 xm x1 y0 y1 z0 z1, (x0 < xm < x1)%R ->
+     clear_of eps (x1 - x0) px x0 -> clear_of eps (x1 - x0) px xm -> clear_of eps (x1 - x0) px x1 ->
+     box_J eps pol j px py pz x0 x1 y0 y1 z0 z1 =
+     (box_J eps pol j px py pz x0 xm y0 y1 z0 z1 + box_J eps pol j px py pz xm x1 y0 y1 z0 z1)%R) /\
+  (forall x0 x1 y0 ym y1 z0 z1, (y0 < ym < y1)%R ->
+     clear_of eps (y1 - y0) py y0 -> clear_of eps (y1 - y0) py ym -> clear_of eps (y1 - y0) py y1 ->
+     box_J eps pol j px py pz x0 x1 y0 y1 z0 z1 =
+     (box_J eps pol j px py pz x0 x1 y0 ym z0 z1 + box_J eps pol j px py pz x0 x1 ym y1 z0 z1)%R) /\
+  (forall x0 x1 y0 y1 z0 zm z1, (z0 < zm < z1)%R ->
+     clear_of eps (z1 - z0) pz z0 -> clear_of eps (z1 - z0) pz zm -> clear_of eps (z1 - z0) pz z1 ->
+     box_J eps pol j px py pz x0 x1 y0 y1 z0 z1 =
+     (box_J eps pol j px py pz x0 x1 y0 y1 z0 zm + box_J eps pol j px py pz x0 x1 y0 y1 zm z1)%R).
+Proof. exact box_J_cut_all. Qed.
+Print Assumptions C13_cuboid_axis_partition_J.
+
+(* numpy's arctan2 (on the reals) meets the two hypotheses: the section above is not vacuous and applies to it *)
+Theorem C13_numpy_arctan2_hypotheses :
+  (forall y x, y <> 0%R -> np_arctan2 (- y)%R x = (- np_arctan2 y x)%R) /\
+  (forall y x, y <> 0%R -> np_arctan2 y (- x)%R = (np_cc y - np_arctan2 y x)%R).
+Proof. exact at2_hyps_satisfiable. Qed.
+Print Assumptions C13_numpy_arctan2_hypotheses.
+
+Theorem C13_cuboid_axis_partition_B_numpy :
+  forall (pol : R * R * R) (j : nat) (px py pz x0 xm x1 y0 y1 z0 z1 : R),
+    px <> x0 -> px <> xm -> px <> x1 -> py <> y0 -> py <> y1 -> pz <> z0 -> pz <> z1 ->
+    box_B_code np_arctan2 pol j px py pz x0 x1 y0 y1 z0 z1 =
+    (box_B_code np_arctan2 pol j px py pz x0 xm y0 y1 z0 z1 + box_B_code np_arctan2 pol j px py pz xm x1 y0 y1 z0 z1)%R.
+Proof. exact (box_B_code_cut_x np_arctan2 np_cc np_arctan2_odd np_arctan2_refl). Qed.
+Print Assumptions C13_cuboid_axis_partition_B_numpy.
 
 (* each translated term IS an eight-corner sum (arctan2 terms unconditionally, log terms off the face planes) *)
 Theorem C13_cuboid_terms_are_corner_sums_partial :
